@@ -24,12 +24,17 @@ GenInit == Init /\ hist = <<>> /\ done = FALSE
 \* (author, content) of that kind, and (one time in three) a random second content the client
 \* builder can batch with it
 ValidFirsts == UNION {{<<a, c>> : c \in {c \in Cands(lst) : Guard(lst, a, c)}} : a \in All}
+\* enc: how the identities inside the record are encoded - canonically, or in one of two byte-different
+\* but semantically equal ways another client implementation may emit. It is no part of the abstract
+\* record (every consumer parses identities before comparing them); it is drawn here so that the
+\* replay covers it.
+Encs == <<"canonical", "canonical", "typeSpelled", "unknownField">>
 GAcceptPick(a, c1, coin) ==
     LET n == Len(log) + 1
         s1 == Eff(lst, a, c1, n)
         snd == IF MaxContents < 2 \/ coin # 1 \/ Rank(c1) = 0 THEN {} ELSE Seconds(s1, a, c1)
-    IN \E cs \in (IF snd = {} THEN {<<c1>>} ELSE {<<c1, RandomElement(snd)>>}) :
-          Accept(a, cs) /\ Step([act |-> "Accept", a |-> a, cs |-> cs, id |-> n, exp |-> lst'])
+    IN \E cs \in (IF snd = {} THEN {<<c1>>} ELSE {<<c1, RandomElement(snd)>>}) : \E e \in One(1..4) :
+          Accept(a, cs) /\ Step([act |-> "Accept", a |-> a, cs |-> cs, id |-> n, enc |-> Encs[e], exp |-> lst'])
 GAccept == /\ Len(log) < MaxLog
            /\ LET vf == ValidFirsts
               IN \E draw \in 1..3 : \E k \in One({x[2].k : x \in vf}) :
